@@ -75,9 +75,8 @@ theorem push_a (less : α → α → Bool) (h : Heap α) (x : α) :
     (push less h x).1.a = (percolateUp less (h.a ++ [x]) h.a.length).1 := by
   simp [push, pushAppends, pushSiftsUp]
 
-theorem push_gen (less : α → α → Bool) (h : Heap α) (x : α)
-    (hg : pushBumpsGen = true := by decide) : (push less h x).1.gen = h.gen + 1 := by
-  simp [push, bump, hg]
+theorem push_gen (less : α → α → Bool) (h : Heap α) (x : α) :
+    (push less h x).1.gen = bump pushBumpsGen h.gen := rfl
 
 theorem push_notes (less : α → α → Bool) (h : Heap α) (x : α) :
     (push less h x).2 = notifyAt (h.a ++ [x]) h.a.length ++ (percolateUp less (h.a ++ [x]) h.a.length).2 := by
@@ -117,16 +116,16 @@ theorem pop_none_iff (less : α → α → Bool) (h : Heap α) : pop less h = no
     simp [popIdx, this]
 
 theorem pop_shape {less : α → α → Bool} {h h' : Heap α} {it : α} {notes : List (Note α)}
-    (hp : pop less h = some (h', it, notes)) (hg : popBumpsGen = true := by decide) :
+    (hp : pop less h = some (h', it, notes)) :
     ∃ last, h.a[0]? = some it ∧ h.a.getLast? = some last ∧
-      h'.a = (percolateDown less (moveLast h.a 0 last) 0).1 ∧ h'.gen = h.gen + 1 ∧
+      h'.a = (percolateDown less (moveLast h.a 0 last) 0).1 ∧ h'.gen = bump popBumpsGen h.gen ∧
       notes = (if 0 < (moveLast h.a 0 last).length then notifyAt (moveLast h.a 0 last) 0 else []) ++
         (percolateDown less (moveLast h.a 0 last) 0).2 := by
   unfold pop at hp
   split at hp
   · rename_i it' last hit hlast
     simp only [popMovesLast, popTruncates, popNotifies, popSiftsDown, if_true, popNotifyGuard, Bool.and_true,
-      Option.some.injEq, Prod.mk.injEq, bump, hg] at hp
+      Option.some.injEq, Prod.mk.injEq] at hp
     obtain ⟨rfl, rfl, rfl⟩ := hp
     refine ⟨last, by simpa [popIdx] using hit, hlast, rfl, rfl, ?_⟩
     simp [moveLast]
@@ -249,8 +248,8 @@ theorem pop_perm {less : α → α → Bool} {h h' : Heap α} {it : α} {notes :
 /-! ## removeAt / updateAt -/
 
 theorem removeAt_shape {less : α → α → Bool} {h h' : Heap α} {i : Nat} {notes : List (Note α)}
-    (hp : removeAt less h i = some (h', notes)) (hg : removeAtBumpsGen = true := by decide) :
-    ∃ last, i < h.a.length ∧ h.a.getLast? = some last ∧ h'.gen = h.gen + 1 ∧
+    (hp : removeAt less h i = some (h', notes)) :
+    ∃ last, i < h.a.length ∧ h.a.getLast? = some last ∧ h'.gen = bump removeAtBumpsGen h.gen ∧
       ((i < (moveLast h.a i last).length ∧
         h'.a = (percolateDown less (percolateUp less (moveLast h.a i last) i).1 i).1 ∧
         notes = notifyAt (moveLast h.a i last) i ++ (percolateUp less (moveLast h.a i last) i).2 ++
@@ -263,7 +262,7 @@ theorem removeAt_shape {less : α → α → Bool} {h h' : Heap α} {i : Nat} {n
     · cases hp
     · rename_i last hlast
       simp only [removeAtMovesLast, removeAtTruncates, removeAtNotifies, removeAtSiftsUp, removeAtSiftsDown,
-        if_true, removeAtGuard, bump, hg, decide_eq_true_eq] at hp
+        if_true, removeAtGuard, decide_eq_true_eq] at hp
       refine ⟨last, hi, hlast, ?_⟩
       split at hp
       · rename_i hlt
@@ -385,6 +384,44 @@ theorem isMin_root {less : α → α → Bool} (sw : StrictWeak less) {a : List 
   · intro y hy
     obtain ⟨j, hj⟩ := List.getElem?_of_mem hy
     exact heapInv_root_min sw h hr j y hj
+
+/-! ## `xheap.Heap`: each wrapper method is the inner method, given the generated fact that its body
+is exactly the forwarding statement (the hypotheses are discharged by `decide` inside the property
+theorems of `Props/C05`, `Props/C15Heap`) -/
+
+theorem xpush_eq (hx : xPushForwards = true) (less : α → α → Bool) (h : Heap α) (x : α) :
+    X.push less h x = (push less h x).1 := by simp [X.push, hx]
+
+theorem xpop_eq (hx : xPopForwards = true) (less : α → α → Bool) (h : Heap α) :
+    X.pop less h = (pop less h).map (fun r => (r.1, r.2.1)) := by simp [X.pop, hx]
+
+theorem xpeek_eq (hx : xPeekForwards = true) (h : Heap α) : X.peek h = peek h := by simp [X.peek, hx]
+
+theorem xlen_eq (hx : xLenForwards = true) (h : Heap α) : X.len h = len h := by simp [X.len, hx]
+
+theorem xgrow_eq (hx : xGrowForwards = true) (h : Heap α) : X.grow h = grow h := by simp [X.grow, hx]
+
+theorem xshrink_eq (hx : xShrinkForwards = true) (h : Heap α) : X.shrink h = shrink h := by
+  simp [X.shrink, hx]
+
+theorem xiterNext_eq (hx : xIterateForwards = true) (h : Heap α) (it : Iter) :
+    X.iterNext h it = iterNext h it := by simp [X.iterNext, hx]
+
+/-- what a successful / panicking `xheap.Heap.Pop` is in terms of the inner `Pop` -/
+theorem xpop_some (hx : xPopForwards = true) {less : α → α → Bool} {h h' : Heap α} {x : α}
+    (hp : X.pop less h = some (h', x)) : ∃ notes, pop less h = some (h', x, notes) := by
+  rw [xpop_eq hx] at hp
+  cases hq : pop less h with
+  | none => rw [hq] at hp; cases hp
+  | some r =>
+    obtain ⟨h1, x1, n1⟩ := r
+    rw [hq] at hp; simp at hp
+    obtain ⟨rfl, rfl⟩ := hp
+    exact ⟨n1, rfl⟩
+
+theorem xpop_none (hx : xPopForwards = true) (less : α → α → Bool) (h : Heap α) :
+    X.pop less h = none ↔ pop less h = none := by
+  rw [xpop_eq hx]; cases pop less h <;> simp
 
 /-! ## a concrete strict weak order for the non-vacuity examples -/
 
